@@ -240,7 +240,9 @@ def oracle_call(P, ctx, subj, d, claims, classes, n, pattern):
     same_thread = (tid == 0) or fl != 'T'
     for case, cond in cases:
         if not ctx.feasible(cond): continue
-        if case is not None and same_thread and it['ttl'] is None:
+        # (only when the stored entries cannot have been displaced: every setup entry plus the newcomer fits the limit / the budget of 8-byte values)
+        roomy = (it['limit'] is None or it['limit'] >= n) and (it['max_memory'] is None or (rec['ret'] == 'u64' and it['max_memory'] >= 8 * (n + 1)) or it['max_memory'] >= 1024)
+        if case is not None and same_thread and it['ttl'] is None and roomy:
             add('C03', 'arguments that were stored before are found (the lookup key is a function of the arguments only)', hit, cond)
             add('C14' if tid != 0 else 'C03', 'a value stored by one thread is served to every thread (global / async)' if tid != 0 else 'a stored result is found again', hit, cond)
         if case is not None and not same_thread:
